@@ -184,6 +184,9 @@ pub enum Space {
 pub const FCTX: &[&str] = &[
     "<svg>", "<svg><g>", "<math>", "<math><mi>", "<svg><desc>", "<svg><foreignObject>",
     "<math><annotation-xml encoding=\"text/html\">",
+    // a foreign root with attributes that is not at the start of the document
+    "t<svg k=v w='x'>", "<p>t</p><math k=v><mi>",
+    "<math><annotation-xml encoding=\"image/svg+xml\"><svg>",
 ];
 
 /// Tag fragments for foreign content: names that are ordinary (a), need attributes (font), are
